@@ -254,6 +254,18 @@ def program_check(pairs, checker, col=None):
         lines.append(f"class Sub{i}(Base{i}):")
         lines.append("    " + c05.header([("pk", "self", False)] + list(gp), "m"))
         lmap[len(lines)] = (i, "override")
+        # the same override with the incompatible definition further away: behind a compatible
+        # base in a multiple-inheritance list, and two levels up a chain
+        lines.append(f"class Near{i}:")
+        lines.append("    " + c05.header([("pk", "self", False)] + list(gp), "m"))
+        lines.append(f"class MSub{i}(Near{i}, Base{i}):")
+        lines.append("    " + c05.header([("pk", "self", False)] + list(gp), "m"))
+        lmap[len(lines)] = (i, "override-mi")
+        lines.append(f"class Mid{i}(Base{i}):")
+        lines.append("    " + c05.header([("pk", "self", False)] + list(gp), "m"))
+        lines.append(f"class Chain{i}(Mid{i}):")
+        lines.append("    " + c05.header([("pk", "self", False)] + list(gp), "m"))
+        lmap[len(lines)] = (i, "override-chain")
     lines.append("def body():")
     for i, (fp, gp) in enumerate(pairs):
         lines.append(f"    use{i}(g{i})")
@@ -287,6 +299,15 @@ def program_check(pairs, checker, col=None):
         if col is not None:
             col.case(nontrivial_id=("prog-override", c05.header(fp), c05.header(gp)) if acc_o and fp != gp else None,
                      label="override-accepted" if acc_o else "override-rejected")
+        for far in ("override-mi", "override-chain"):
+            acc_far = (i, far) not in diag
+            if acc_far != acc_o:
+                fails.append((f"prog-{far}|verdict-differs-from-direct-override",
+                              f"override `{c05.header(gp, 'm')}` of `{c05.header(fp, 'm')}` is {'accepted' if acc_o else 'reported'} against the direct "
+                              f"base but {'accepted' if acc_far else 'reported'} when the same base is "
+                              f"{'behind a compatible base (class MSub(Near, Base))' if far == 'override-mi' else 'two levels up (Base <- Mid <- Chain)'}",
+                              fp, gp))
+                break
         if acc_o:
             f = c05.make_fn(fp)
             names = [nm for k, nm, _ in list(fp) + list(gp) if k in ("po", "pk", "ko")] + ["zz"]
